@@ -5,6 +5,16 @@ ROOT = os.path.dirname(os.path.dirname(os.path.abspath(__file__)))
 
 TECH = "deterministic simulation with fault injection: "
 CHECKS = {
+ "C08": dict(
+   text="Seeded screen contents written through every path the property lists (CPU LDIR via 0x4000 and via 0xC000 with bank 5/7 paged, pokes, SCR / SNA / SZX load with chunked assets, tape fast-load, raw bus writes), 128K screen-select toggles, then quiet frames compared pixel-exact with RefScreen; FLASH polarity run-lengths over 50+ frames; single CPU writes scheduled at a seeded T at least two lines before/after the beam position must appear in the current/next frame. Sampling, not proof.",
+   note="Oracle input is the actual content of the displayed RAM bank (hook); loader correctness is C14's; flash phase origin is not assumed.",
+   technique=TECH+"seeded write paths and write times relative to the simulated beam, frame buffers checked against a reference decode",
+   ref="5 (C08)"),
+ "C09": dict(
+   text="Seeded schedules of OUTs to even ports over several frames (several per line, in retrace, in the first/last border lines, straddling the frame end, frames with no write, border set by a loaded snapshot); write instants are observed by single-stepping and every completed border buffer is compared pixel by pixel with the reference time line within the property's 16-pixel tolerance. Sampling, not proof.",
+   note="Pixels whose beam time lies within 8 T of the span [start of port cycle, end of OUT] may show either colour; power-on state before any write is outside the statement.",
+   technique=TECH+"seeded port-write times on the simulated frame clock, border frame buffer checked against a reference beam time line",
+   ref="5 (C09)"),
  "C07": dict(
    text="Seeded device configurations (machine, Kempston joystick, mouse, I/O extender with a seeded claimed set, held keys, AY contents), then stratified port accesses (IN and OUT executed by the emulated CPU) at seeded beam positions; a strict partial-decode model says which single device is selected, its effect/value is asserted and every other device's canary (border, paging latch + bank marker, AY read-back, extender log) must be unchanged; unclaimed reads must return the floating bus (0xFF away from the fetch window, else a byte of the line being fetched). Sampling, not proof; the decode clause is static, only the floating-bus clause depends on simulated time.",
    note="Multi-device addresses and addresses the strict reading leaves open are don't-care (counted); floating-bus values inside the window are checked against a position-specific set (+-4 columns), so a wrong byte passes with ~13% probability per sample; EAR asserted low with no tape.",
